@@ -677,7 +677,9 @@ func (tr *fnTrans) typeAssert(in *ssa.TypeAssert) {
 	}
 	if in.CommaOk {
 		okn := tr.define(tr.vname(in)+"_ok", SBool, ok)
-		vn := tr.define(tr.vname(in)+"_v", val.T, ite(okn, val.S, zeroOf(val.T)))
+		// a constant with a defining equation (not a macro): the value may occur in patterns
+		vn := tr.declare(tr.vname(in)+"_v", val.T)
+		tr.items = append(tr.items, item{text: fmt.Sprintf("(assert (= %s %s))", vn, ite(okn, val.S, zeroOf(val.T))), isHyp: false, blk: tr.curBlk()})
 		vt := T(vn, val.T)
 		tr.hyp(implies(tr.inB[tr.cur], tr.wf(vt, tr.alloc)))
 		tr.tuples[in] = []Term{vt, T(okn, SBool)}
